@@ -559,6 +559,9 @@ func buildHistory(p *Program, recs []Rec) ([]lin.Ev, string) {
 				ret = lin.Pending
 			}
 			ev := lin.Ev{Op: r.Op, Res: rp, Inv: r.Inv, Ret: ret, Thread: r.Thread, Nows: opNows(r.Op.K, r.Nows)}
+			if r.Op.K == model.CDelete || r.Op.K == model.CGetAndDelete {
+				ev.CBAmbig = callbackSwapOverlaps(recs, r)
+			}
 			if usesDefault(&r.Op) {
 				for j := range recs {
 					c := &recs[j]
@@ -604,6 +607,18 @@ func opNows(k model.Kind, reads []int64) []int64 {
 		return []int64{last, last}
 	}
 	return []int64{reads[0], last}
+}
+
+// callbackSwapOverlaps: a SetEvictedCallback of another thread overlaps r (C06: the call may use
+// the callback in force at any moment of the call).
+func callbackSwapOverlaps(recs []Rec, r *Rec) bool {
+	for j := range recs {
+		c := &recs[j]
+		if c.Op.K == model.CSetCallback && c.Thread >= 0 && c.Thread != r.Thread && overlap(c, r) {
+			return true
+		}
+	}
+	return false
 }
 
 // usesDefault: the call resolves the DefaultExpiration sentinel.
